@@ -2923,6 +2923,42 @@ PlanT<TArgs>::operator bool() const noexcept {
 
 template <typename TArgs>
 FFSM2_CONSTEXPR(14)
+typename PlanT<TArgs>::Task&
+PlanT<TArgs>::first() noexcept {
+	FFSM2_ASSERT(_bounds.first < TASK_CAPACITY);
+
+	return _planData.tasks[_bounds.first];
+}
+
+template <typename TArgs>
+FFSM2_CONSTEXPR(14)
+const typename PlanT<TArgs>::Task&
+PlanT<TArgs>::first() const noexcept {
+	FFSM2_ASSERT(_bounds.first < TASK_CAPACITY);
+
+	return _planData.tasks[_bounds.first];
+}
+
+template <typename TArgs>
+FFSM2_CONSTEXPR(14)
+typename PlanT<TArgs>::Task&
+PlanT<TArgs>::last() noexcept {
+	FFSM2_ASSERT(_bounds.last < TASK_CAPACITY);
+
+	return _planData.tasks[_bounds.last];
+}
+
+template <typename TArgs>
+FFSM2_CONSTEXPR(14)
+const typename PlanT<TArgs>::Task&
+PlanT<TArgs>::last() const noexcept {
+	FFSM2_ASSERT(_bounds.last < TASK_CAPACITY);
+
+	return _planData.tasks[_bounds.last];
+}
+
+template <typename TArgs>
+FFSM2_CONSTEXPR(14)
 void
 PlanT<TArgs>::clear() noexcept	{
 	clearTasks();
